@@ -107,6 +107,23 @@ def check_pair_describable(e, v, cx, pool):
     try:
         must_str("matcher-str", lambda: str(m))
         r, mm = mc.verdict(m, val)
+        if r in ("T", "F"):
+            # assert_that raises MismatchError exactly when match() returned a mismatch - on every pair, not only on
+            # the sample run as real tests (a mismatch object that is falsy must still count as a mismatch)
+            from testtools.assertions import assert_that
+            from testtools.matchers import MismatchError
+
+            try:
+                assert_that(val, m)
+                got = None
+            except MismatchError as ex:
+                got = ex
+            except BaseException as ex:  # noqa
+                raise Fail("assert_that-raises", sig_of(ex), repr(ex)[:200])
+            if r == "F" and got is None:
+                raise Fail("assert_that-raises", "assert_that:no-MismatchError-on-mismatch", "no exception although match() returned %r" % (mm,))
+            if r == "T" and got is not None:
+                raise Fail("assert_that-raises", "assert_that:raises-on-match", repr(got)[:200])
         if r == "F":
             describable(m, val, mm)
         return r, None
